@@ -21,7 +21,7 @@ def styles_for(r, n):
         st = {"legacy": r.random() < 0.5, "indent": r.choice(["", "  ", "    ", "\t"]),
               "comment_lines": r.choice([0, 0.2, 0.5]),
               "trailing": set(k for k in TRAILING_OK if r.random() < 0.5), "join_block_comments": r.random() < 0.6,
-              "top_comment": r.random() < 0.4, "blank_ws": r.random() < 0.4, "py_indent": r.random() < 0.4,
+              "top_comment": r.random() < 0.4, "blank_ws": r.random() < 0.4, "py_indent": r.random() < 0.4, "comment_flush": r.random() < 0.4,
               "rng": random.Random(r.randrange(1 << 30))}
         out.append(st)
     return out
@@ -30,7 +30,7 @@ def styles_for(r, n):
 def describe(st):
     return {"legacy": st["legacy"], "indent": st["indent"], "comment_lines": st["comment_lines"], "trailing": sorted(st["trailing"]),
             "join_block_comments": st.get("join_block_comments", False), "top_comment": st.get("top_comment"),
-            "blank_ws": st.get("blank_ws"), "py_indent": st.get("py_indent")}
+            "blank_ws": st.get("blank_ws"), "py_indent": st.get("py_indent"), "comment_flush": st.get("comment_flush")}
 
 
 def compile_outcome(src):
@@ -117,6 +117,49 @@ def py_body_family(rep, n):
                                        "source": s1, "base_source": s2})
     rep.coverage.setdefault("families", {})["c17-pybody"] = {"cases": n * 2, "differing": bad}
     rep.coverage["evaluations"] = rep.coverage.get("evaluations", 0) + n * 2
+
+
+ML_STMTS = [["~ x = [", "    1,", "    2", "]"], ["~ d = {", "  'a': (1,", "        2),", "}"], ["~ y = (1 +", "2)"], ["~ q = [", "]", "after {q}"],
+            ["~ z = [  // c", "  1]  "], ["~ w = f(", "    a=[", "      1],", ")"]]
+
+
+def multiline_stmt_family(rep, n):
+    """C17 on multi-line ~ statements inside block bodies: indenting the whole body by any uniform amount compiles to the
+    identical story (the continuation lines are part of the body)"""
+    bad = 0
+    done = 0
+    for idx in range(n):
+        r = rng_for(rep.seed, "mlstmt", idx)
+        body = ["before"] * r.randint(0, 1) + r.choice(ML_STMTS) + ["text {x}"] * r.randint(0, 1)
+        if r.random() < 0.4:
+            body += r.choice(ML_STMTS)
+        kind = r.choice(["if", "for", "if-in-for", "for-in-if", "if-else"])
+        def wrap(pad):
+            b = [pad + l for l in body]
+            if kind == "if":
+                ls = ["@if True:"] + b + ["@endif"]
+            elif kind == "for":
+                ls = ["@for i in [1]:"] + b + ["@endfor"]
+            elif kind == "if-in-for":
+                ls = ["@for i in [1]:", pad + "@if True:"] + [pad + l for l in b] + [pad + "@endif", "@endfor"]
+            elif kind == "for-in-if":
+                ls = ["@if True:", pad + "@for i in [1]:"] + [pad + l for l in b] + [pad + "@endfor", "@endif"]
+            else:
+                ls = ["@if False:", pad + "no", "@else:"] + b + ["@endif"]
+            return ":: Start\n~ x = 0\n~ a = 1\n~ f = len\n" + "\n".join(ls) + "\nend\n"
+        base_src = wrap("")
+        base = compile_outcome(base_src)
+        for pad in ("  ", "    ", "\t"):
+            src = wrap(pad)
+            got = compile_outcome(src)
+            done += 1
+            if got != base:
+                bad += 1
+                what = (f"first difference at {first_story_diff(base[1], got[1])}" if base[0] == got[0] == "ok" else f"{base[0]} vs {got[0]}: {got[1] if got[0] != 'ok' else base[1]}")
+                rep.violations.append({"cls": None, "family": "c17-mlstmt", "what": f"a {kind} body with a multi-line ~ statement compiles differently when indented by {pad!r}: " + str(what)[:200],
+                                       "source": src, "base_source": base_src})
+    rep.coverage.setdefault("families", {})["c17-mlstmt"] = {"cases": done, "differing": bad}
+    rep.coverage["evaluations"] = rep.coverage.get("evaluations", 0) + done
 
 
 def string_level(rep, seed, n):
